@@ -1009,6 +1009,17 @@ class PDFSimpleFont(PDFFont):
         except KeyError:
             raise PDFUnicodeNotDefined(None, cid)
 
+    def char_width(self, cid: int) -> float:
+        # The metrics of the standard 14 fonts are keyed by character. Which
+        # glyph is shown, and so its width, is decided by the encoding; a
+        # ToUnicode CMap only changes the text that is extracted.
+        cid_width = safe_float(self.widths.get(cid))
+        if cid_width is None:
+            cid_width = safe_float(self.widths.get(self.cid2unicode.get(cid)))
+        if cid_width is None:
+            return self.default_width * self.hscale
+        return cid_width * self.hscale
+
 
 class PDFType1Font(PDFSimpleFont):
     def __init__(self, rsrcmgr: "PDFResourceManager", spec: Mapping[str, Any]) -> None:
